@@ -424,14 +424,18 @@ def gen_life_case(rng, lazy_mode=None, reopen=None, fi=None, mode=None):
         if rng.random() < 0.75:
             f = rng.choice([1.0, 2.0, 0.5, 1.25, rng.uniform(0.2, 3.0)])
             roll[s] = [rng.choice([None] + list(range(1, T)) * 3), rng.choice(tgts), f]
-    if rng.random() < 0.35 and roll:
+    if rng.random() < 0.5 and roll:
         # a chain: a roll target that is itself due to roll, mostly in the same call as one of its sources (every matured position
         # moves once, at its own factor, as it stood before the call - whatever the order of the children)
         s = rng.choice(sorted(roll))
+        # (mostly a feeder listed before the name it rolls into: the order in which the children are visited is part of the case)
+        before = [k for k in sorted(roll) if names.index(k) < names.index(roll[k][1])]
+        if before and rng.random() < 0.7:
+            s = rng.choice(before)
         x = roll[s][1]
         ys = [n for n in free if n != x and roll.get(n, [None, None])[1] != x]
         if ys:
-            roll[x] = [roll[s][0] if rng.random() < 0.75 else rng.choice([None] + list(range(1, T)) * 3), rng.choice(ys),
+            roll[x] = [roll[s][0] if rng.random() < 0.9 else rng.choice([None] + list(range(1, T)) * 3), rng.choice(ys),
                        rng.choice([1.0, 2.0, 0.5, 1.25, rng.uniform(0.2, 3.0)])]
     if rng.random() < 0.15 and roll:      # a source that also has a close date (never a name that something rolls into)
         cands = sorted(k for k in roll if k not in {v[1] for v in roll.values()})
@@ -450,6 +454,17 @@ def gen_life_case(rng, lazy_mode=None, reopen=None, fi=None, mode=None):
     if lazy_mode != "none" and rng.random() < 0.5:
         lazy_start = rng.randint(1, T - 2)      # nothing is bought before this date: lazy children appear late
     spec["life"] = {"mode": mode, "reopen": reopen, "lazy_mode": lazy_mode, "lazy_start": lazy_start}
+    if rng.random() < 0.3 and mode == "scripted":
+        # a top-up booked earlier in the same stack, on the very date a name matures (nothing refreshes the tree in between): the
+        # close / roll that follows acts on the position as it stands then
+        early = {}
+        for nm in names:
+            i = close.get(nm) if nm in close else (roll[nm][0] if nm in roll else None)
+            if i is not None and i >= max(1, lazy_start) and rng.random() < 0.7:
+                early.setdefault(dates[i], []).append(["t", nm, gen_qty(rng, spec["integer"])])
+        if early:
+            st.append({"k": "trade", "plan": early})
+            spec["life"]["early_topup"] = True
     st.append({"k": "close"})
     st.append({"k": "roll"})
     st.append(sel)
@@ -1019,7 +1034,8 @@ def requests_for(bt, spec, e, frames, N):
 
 def run_request(bt, spec, log, N):
     """whole lifecycle of a scripted fixed-income life case through `lifecycleRun`"""
-    if spec["kind"] != "life" or not spec["tree"]["fi"] or spec["life"]["mode"] != "scripted" or spec["life"].get("reopened"):
+    if spec["kind"] != "life" or not spec["tree"]["fi"] or spec["life"]["mode"] != "scripted" or spec["life"].get("reopened") \
+            or spec["life"].get("early_topup"):       # (the lifecycle model has the day's trades after SelectActive only; the single calls are still compared)
         return []
     closes = [e for e in log if e["k"] == "close"]
     sels = [e for e in log if e["k"] == "select_active"]
